@@ -305,9 +305,15 @@ def run(rep):
                 elif 'all' in names and rooted and 'enumerate' in all_names:
                     if closure_eq_index(mir, B, g['calls']) and truthy_only(g):
                         dens = ('keys().enumerate().all(|(i,k)| i == k)', g)
+                elif 'all' in names and rooted and 'zip' in all_names:
+                    # keys().zip(0u32..).all(|(k, i)| *k == i): the i-th key in order is i (the counter is a RangeFrom starting at the constant 0)
+                    rf = [st2 for _, st2 in stmts if st2['rv']['rk'] == 'aggregate' and 'ops::RangeFrom' in st2['rv']['agg']]
+                    start0 = bool(rf) and all(st2['rv']['ops'][0].get('const', '').replace('const ', '').split('_')[0] == '0' for st2 in rf)
+                    if start0 and closure_eq_index(mir, B, g['calls']) and truthy_only(g):
+                        dens = ('keys().zip(0..).all(|(k,i)| k == i)', g)
             rep.check(dens is not None, 'C11.R3.density-test', f'density:{gname}', B.where(b),
-                      'the Ok return is not dominated by a recognised density test of the group keys (keys().map(widening cast).eq(0..len) or '
-                      'keys().enumerate().all(|(i,k)| i == k)): gaps or a start other than 0 could be accepted, or the test can overflow/panic',
+                      'the Ok return is not dominated by a recognised density test of the group keys (keys().map(widening cast).eq(0..len), '
+                      'keys().enumerate().all(|(i,k)| i == k) or keys().zip(0..).all(|(k,i)| k == i)): gaps or a start other than 0 could be accepted, or the test can overflow/panic',
                       ok_detail=f'dominated by {dens[0] if dens else ""}')
             if dens:
                 g = dens[1]
